@@ -16,7 +16,11 @@ number `d` of components (`OpDim d`).
 * C. `NonNegLoss`; `nonneg_reachable` (both tables, ANY history: invariant `LossesAll` +
      `CombVals`); `nonneg_run` (the same for valid histories through `RealVals`), state-level
      `nonneg_losses_of_realVals`, `nonneg_lossesC_of_combVals`.
-* D. `ask_optimal_run`, `ask_optimal_run_card`.
+* D. `ask_optimal_run`, `ask_optimal_run_card`; `scaleOK_run_of_valid`,
+     `lossScale_eq_scaleX_of_valid` (the x-scale bookkeeping is the initial one after EVERY valid
+     history — the batch path included, whether or not the batch contains the end points of the
+     domain; before the repair `fix: Learner1D.tell_many batch path shrank the x-scale to the range of
+     the points` this needed the end-point proviso of the old `ValidOp`).
 -/
 set_option linter.unusedSectionVars false
 namespace L1D
@@ -469,6 +473,27 @@ theorem nonneg_run (hnn : NonNegLoss lossFn) {lo hi : α} (hlt : lo < hi) (facto
   exact ⟨h1, nonneg_lossesC_of_combVals hI hcv h1⟩
 
 /-! ## D. the allocation of `ask` is optimal in every reachable valid state -/
+
+/-- the x bounding box, the input scale and the scale captured by the loss tables are those of the
+initial state after every valid history (`ScaleOK` of `L1DGreedy`, there only proved for runs
+WITHOUT a batch `tell_many`, `scaleOK_run`) -/
+theorem scaleOK_run_of_valid {lo hi : α} (hlt : lo < hi) (factor dxEps : α) (nn : Nat)
+    (ops : List (Op α)) (hv : ValidOps lossFn r12 (init lo hi factor dxEps nn) ops) :
+    ScaleOK lo hi (run lossFn r12 (init lo hi factor dxEps nn) ops) := by
+  obtain ⟨hb, -⟩ := binv_run lossFn r12 hlt factor dxEps nn ops hv
+  have elo := run_lo lossFn r12 (init lo hi factor dxEps nn) ops
+  have ehi := run_hi lossFn r12 (init lo hi factor dxEps nn) ops
+  unfold ScaleOK scl
+  rw [hb.bbox, hb.scaleX, hb.lossScale, elo, ehi]
+  rfl
+
+/-- `lossScale_eq_scaleX_run` for valid histories (batches allowed) -/
+theorem lossScale_eq_scaleX_of_valid {lo hi : α} (hlt : lo < hi) (factor dxEps : α) (nn : Nat)
+    (ops : List (Op α)) (hv : ValidOps lossFn r12 (init lo hi factor dxEps nn) ops) :
+    (run lossFn r12 (init lo hi factor dxEps nn) ops).lossScale =
+      (run lossFn r12 (init lo hi factor dxEps nn) ops).scaleX := by
+  obtain ⟨hb, -⟩ := binv_run lossFn r12 hlt factor dxEps nn ops hv
+  exact hb.lossScale.trans hb.scaleX.symm
 
 /-- **D.**  `ask_greedy_optimal` in the states reached by valid histories, for a loss function
 without negative values and a monotone rounding: the allocation computed by
